@@ -17,6 +17,8 @@ TRACE_CFG = """CONSTANTS
   Creators = {"ot"}
   Callers = {"ld"}
   AllowBlock = FALSE
+  AllowDeny = FALSE
+  PolIds = {0}
   TraceFile = "%s"
 SPECIFICATION TSpec
 INVARIANT NotAccepted
@@ -95,9 +97,9 @@ def check(ctx, replay=None):
     th = ctx.tier == "thorough"
     # 1. exhaustive interleavings of the loader's steps with thread creation / migration
     jobs = [dict(module="Loader", cfg=lf.mc_cfg(threads="{t1, t2, t3, t4}", maxloads=2, flagsets='{{}, {"TSYNC"}, {"LOG"}, {"TSYNC", "LOG"}}',
-                                                pols='{"valid"}'), name="Loader_4t", timeout=3000)]
+                                                pols='{"valid"}', allow_deny=False), name="Loader_4t", timeout=3000)]
     if th:
-        jobs.append(dict(module="Loader", cfg=lf.mc_cfg(threads="{t1, t2, t3, t4, t5}", maxloads=2, flagsets='{{}, {"TSYNC"}, {"TSYNC", "LOG"}}', pols='{"valid"}'),
+        jobs.append(dict(module="Loader", cfg=lf.mc_cfg(threads="{t1, t2, t3, t4, t5}", maxloads=2, flagsets='{{}, {"TSYNC"}, {"TSYNC", "LOG"}}', pols='{"valid"}', allow_deny=False),
                          name="Loader_5t", timeout=3000))
     for r in ctx.tlc_many(jobs, parallel=1):
         if r["violated"]:
@@ -125,6 +127,8 @@ def check(ctx, replay=None):
     work += [{"n": n, "flags": fl, "seed": ctx.seed + n, "spawns": 2, "divergent": True} for n in (2, 8) for fl in (1, 3, 0, 2)]
     # the loading thread sits under an enclosing filter that answers seccomp(2) with ENOSYS: an error is expected, nil only with everybody filtered
     work += [{"n": n, "flags": fl, "seed": ctx.seed + n, "spawns": 2, "block": True} for n in (1, 4, 16) for fl in (1, 3)]
+    # the loading thread loaded the same policy before, without thread-sync: the recorded load hands the kernel a program it has seen
+    work += [{"n": n, "flags": fl, "seed": ctx.seed + n, "spawns": 2, "preload": True, "preload_flags": pf} for n in (1, 4, 16) for fl in (1, 3) for pf in (0, 2)]
     results = lf.run_many(lambda c: (c, run_cfg(binary, c)), work, workers=6)
     rows = []
     nrec = 0
@@ -142,6 +146,13 @@ def check(ctx, replay=None):
             ctx.skip("load with flags %#x failed (%s): nothing to validate for C10" % (cfg["flags"], (obs.get("error") or "")[:80]))
             nfailed += 1
             continue
+        if cfg.get("preload"):
+            # the loader was filtered (by the same policy) before the recorded load: outside LoaderTrace's fresh-process segments; judged by the statement
+            ctx.cov["evaluations"] += sum(len(t["probes"]) for t in obs["threads"])
+            for b in direct_judge(obs, cfg["flags"])[:2]:
+                ctx.violation("thread-sync load of a policy the thread had loaded before (without thread-sync) returned nil: %s" % b, {"config": cfg, "recording": obs,
+                              "admissible": "an error, or nil with every thread filtered", "how": "./check C10 --replay <this file>"})
+            continue
         if (cfg.get("divergent") or cfg.get("block")) and cfg["flags"] & 1:
             # nil although another thread carries a divergent filter / seccomp(2) is unavailable: judged directly by the statement
             bad = direct_judge(obs, cfg["flags"])
@@ -154,7 +165,9 @@ def check(ctx, replay=None):
         ctx.cov["evaluations"] += sum(len(t["probes"]) for t in obs["threads"])
         if any(p["filtered"] and not p["saw"] for t in obs["threads"] for p in t["probes"]):
             ctx.cov["distinct_nontrivial"] += 1
-    if nrec + ndiv + nfailed < len(work) // 2:
+    nrec_pre = sum(1 for c, (o, e) in results if c.get("preload") and o is not None and o["result"] == "nil")
+    ctx.cov["recordings_with_a_preloaded_policy"] = nrec_pre
+    if nrec + ndiv + nfailed + nrec_pre < len(work) // 2:
         raise vlib.Machinery("only %d of %d recordings succeeded" % (nrec, len(work)))
     # concatenate into a few trace files, validate in parallel
     nfiles = 8
